@@ -168,6 +168,7 @@ type Collector struct {
 	Samples      []json.RawMessage
 	Extra        map[string]any
 	Failures     []FailureRec
+	InfraMsgs    []string
 	start        time.Time
 	maxSamples   int
 	bulkDistinct int64
@@ -325,6 +326,7 @@ type statsFile struct {
 	Samples      []json.RawMessage `json:"samples"`
 	Extra        map[string]any    `json:"extra"`
 	Failures     []FailureRec      `json:"failures"`
+	InfraMsgs    []string          `json:"infra_msgs"`
 	WallS        float64           `json:"wall_s"`
 }
 
@@ -338,7 +340,7 @@ func (c *Collector) Flush() {
 	defer c.mu.Unlock()
 	sf := statsFile{Property: c.Property, Shard: Shard(), Seed: Seed(), Tier: Tier(), Evaluations: c.Evaluations,
 		NonTrivial: c.NonTrivial, Inconclusive: c.Inconclusive, Labels: c.Labels, Excluded: c.Excluded,
-		Samples: c.Samples, Extra: c.Extra, Failures: c.Failures, WallS: time.Since(c.start).Seconds(),
+		Samples: c.Samples, Extra: c.Extra, Failures: c.Failures, InfraMsgs: c.InfraMsgs, WallS: time.Since(c.start).Seconds(),
 		BulkDistinct: c.bulkDistinct}
 	hs := make([]string, 0, len(c.distinct))
 	for h := range c.distinct {
@@ -415,6 +417,17 @@ func Check[T any](t *testing.T, spec Spec[T]) {
 			}
 		}
 		o := spec.Exec(c)
+		if strings.HasPrefix(o.Fail, "infrastructure:") {
+			// trouble of the harness's own making (ports, process start-up, ...) is never a violation: the
+			// case is counted as inconclusive and the message is kept for the driver
+			C.mu.Lock()
+			C.Labels["infrastructure-trouble"]++
+			if len(C.InfraMsgs) < 5 {
+				C.InfraMsgs = append(C.InfraMsgs, firstLine(o.Fail))
+			}
+			C.mu.Unlock()
+			o.Fail, o.Inconclusive, o.NonTrivial = "", true, false
+		}
 		C.Record(js, o)
 		if o.Fail != "" {
 			lastJSON, lastMsg = js, o.Fail
